@@ -368,6 +368,8 @@ def torch_sphere_pass(m=1):
     k = body.index(f)
     ns = shim.base_namespace()
     shim.load('odak/learn/raytracing/ray.py', ['propagate_ray', 'create_ray_from_two_points'], ns)
+    shim.load(TORCH, [], ns)                          # module-level helpers, classes and constants of the file
+    bind_module_constants(src, ns)
     sink = _Sink()
     ns['torch'].__dict__['nn'] = sink; ns['torch'].__dict__['optim'] = sink
     ns['tqdm'] = lambda x, **kw: _Bar(x)
